@@ -93,7 +93,7 @@ class IPv4NetworkField(StringField):
                 "value must be at least a /%d subnet" % self.min_prefix_len
             )
 
-        if self.max_prefix_len and net.prefixlen > self.max_prefix_len:
+        if self.max_prefix_len is not None and net.prefixlen > self.max_prefix_len:
             raise ValueError(
                 "value must be smaller than a /%d subnet" % self.max_prefix_len
             )
